@@ -184,17 +184,18 @@ def _engine_history(ctx):
         if t.op == "ite":
             c, a_, b_ = t.args
             uses(c, g, out, seen)
-            pos = has_ws(c) and not (c.op == "not")
-            uses(a_, g or pos, out, seen)
-            uses(b_, g or (has_ws(c) and c.op == "not"), out, seen)
+            # either branch is "under a test of warm_start" (which of the two continues from earlier state is not decided here,
+            # as for path conditions)
+            uses(a_, g or has_ws(c), out, seen)
+            uses(b_, g or has_ws(c), out, seen)
             return
         if t.op in ("and", "or") and t.args and isinstance(t.args[0], tuple):
             # short-circuit: operands after a warm_start conjunct are evaluated only when it holds
             g2 = g
             for x in t.args[0]:
                 uses(x, g2, out, seen)
-                if t.op == "and" and has_ws(x):
-                    g2 = True
+                if has_ws(x):
+                    g2 = True      # `ws and f(..)` / `not ws or f(..)`: f is evaluated only after the test of warm_start
             return
         for x in t.args:
             if isinstance(x, T):
